@@ -92,6 +92,11 @@ where
     S: Subscribe<C>,
     C: Collect,
 {
+    fn on_register_dispatch(&self, collector: &Dispatch) {
+        self.inner.on_register_dispatch(collector);
+        self.subscriber.on_register_dispatch(collector);
+    }
+
     fn register_callsite(&self, metadata: &'static Metadata<'static>) -> Interest {
         self.pick_interest(self.subscriber.register_callsite(metadata), || {
             self.inner.register_callsite(metadata)
